@@ -90,12 +90,12 @@ pub fn gen_case(run_seed: u64) -> Case {
     let mut wl = Rng::split(run_seed, "workload");
     let mut sr = Rng::split(run_seed, "schedule");
     let n_threads = wl.range(1, 4) as usize;
-    let allow_clone_panic = wl.chance(1, 3);
+    let cfg = crate::c30ops::GenCfg::draw(&mut wl);
     let total = wl.range(4, 60) as usize;
     let mut threads: Vec<Vec<Op>> = vec![vec![]; n_threads];
     for _ in 0..total {
         let t = wl.usize(n_threads);
-        threads[t].push(gen_op(&mut wl, allow_clone_panic));
+        threads[t].push(crate::c30ops::gen_op_cfg(&mut wl, &cfg));
     }
     threads.retain(|t| !t.is_empty());
     if threads.is_empty() {
